@@ -177,6 +177,7 @@ def fixed_corpus():
     add(D([A2, B3], nest(cross('A', 'A'), cross('B', 'B'))))
     add(D([A2, B2, C2], nest(cross('A', 'A'), cross('BC', 'B'))))
     add(D([A2, B2, C2], nest(cross('AC', 'A'), cross('B', 'B'))))
+    add(D([A2, B2, C2], nest(cross('CA', 'A'), cross('B', 'B'))))      # uncrossed outer factor listed first
     add(D([A3, B2], nest(cross('A', 'A', [['Sequential', 'A']]), cross('B', 'B'))))
     add(D([A3, B2], nest(cross('A', 'A', [['AtMostKInARow', 1, 'A', 'a0']]), cross('B', 'B', [['Pin', 0, 'B', 'b1']]))))
     add(D([A2, B2], nest(cross('A', 'A', [['MinimumTrials', 4], ['ExactlyK', 2, 'A', 'a0']]), cross('B', 'B'))))
